@@ -33,6 +33,12 @@ pub assume_specification[ str::eq_ignore_ascii_case ](a: &str, b: &str) -> (r: b
     ensures r == eq_ic(a@, b@);
 pub assume_specification[ str::to_ascii_lowercase ](a: &str) -> (r: String)
     ensures r@ == lower(a@);
+pub open spec fn upper_char(c: char) -> char {
+    if 'a' <= c && c <= 'z' { ((c as u8 - 32) as char) } else { c }
+}
+pub open spec fn upper(a: Seq<char>) -> Seq<char> { a.map_values(|c: char| upper_char(c)) }
+pub assume_specification[ str::to_ascii_uppercase ](a: &str) -> (r: String)
+    ensures r@ == upper(a@);
 
 #[verifier::external_type_specification]
 #[verifier::external_body]
